@@ -111,9 +111,12 @@ structure Runs where
   raw : List Obs
   /-- observations of the fragment (K: followed by CHECKSIG); for W inputs start with `x` -/
   eff : List Obs
-  /-- extra candidate inputs for the existential `d` (e.g. the specification's canonical
-  dissatisfaction), observed on `eff` -/
+  /-- extra designated inputs (the specification's canonical dissatisfaction: a candidate for the
+  existential `d`; its canonical satisfaction: one run on which the fragment SUCCEEDS, so that
+  `u`, `n`, `s` and the success shape are tested on a satisfied run), observed on `eff` -/
   extra : List Obs
+  /-- the same inputs observed on the fragment itself (for the shape test) -/
+  extraRaw : List Obs
   effOnEmpty : Option (List Bytes)
   effOnTop : Bytes → Option (List Bytes)
 
@@ -127,7 +130,7 @@ def checkAll (ty : Ty) (keys : List Bytes) (r : Runs) : Option (String × List B
   -- labels are judged on `eff`, whose base is B for K fragments
   let eb : Base := if base == .K then .B else base
   let fail (l : String) (o : Option Obs) : Option (String × List Bytes) := o.map (fun o => (l, o.input))
-  let c1 := fail (String.singleton ty.corr.base.toChar) (firstBad r.raw (shapeOk base keys))
+  let c1 := fail (String.singleton ty.corr.base.toChar) (firstBad (r.raw ++ r.extraRaw) (shapeOk base keys))
   let c2 := match ty.corr.input with
     | .zero => fail "z" (firstBad r.eff (zeroOk r.effOnEmpty))
     | .one | .oneNonZero =>
@@ -136,10 +139,10 @@ def checkAll (ty : Ty) (keys : List Bytes) (r : Runs) : Option (String × List B
     | _ => none
   let c3 := match ty.corr.input with
     | .oneNonZero | .anyNonZero =>
-      (fail "n" (firstBad r.eff (nonzeroOk eb))).orElse fun _ =>
+      (fail "n" (firstBad (r.eff ++ r.extra) (nonzeroOk eb))).orElse fun _ =>
         if satisfied eb ⟨[], true, r.effOnEmpty⟩ then some ("n", []) else none
     | _ => none
-  let c4 := if ty.corr.unit then fail "u" (firstBad r.eff (unitOk eb)) else none
+  let c4 := if ty.corr.unit then fail "u" (firstBad (r.eff ++ r.extra) (unitOk eb)) else none
   let c5 := if ty.corr.dissat then
       (if (r.eff ++ r.extra).any (isDissat eb) then none else some ("d", [])) else none
   let c6 := if ty.mall.dissat == .none && eb != .V then fail "f" (firstBad (r.eff ++ r.extra) (forcedOk eb)) else none
